@@ -373,6 +373,12 @@ def scn_edges(info, d, cap_edges=10, cap_bits=4):
             script = ['-'] * nab + [f'b={(bits >> i) & 1}' for i in range(nc)]
             out.append(pre + [op_line(call(e, '9'), None, script), op_line('state' if dyn else 'topt X'),
                               op_line(call(e, '9'), guards, None), op_line('drop')])
+        # every around callback of the edge vetoes once, with each kind of error (the InvalidTransition veto must
+        # name the state the machine is in)
+        for i in range(nab):
+            for kind in ('I', 'G~zz', 'A~quota'):
+                script = ['-'] * i + [f'a={kind}']
+                out.append(pre + [op_line(call(e, '9'), guards, script), op_line('state' if dyn else 'topt X'), op_line('drop')])
     return out
 
 # ---------------------------------------------------------------------------------------
